@@ -1,8 +1,8 @@
 #!/venv/bin/python
 """Regenerate Gen_CIR.v from the CURRENT source of exo/backend/LoopIR_compiler.py (EXO_REPO, default /repo).
-Exits non-zero, naming the construct and line, when the source leaves the translator's grammar; the stale
-Gen_CIR.v is then removed so that nothing can be proved about an outdated translation.  An unchanged translation
-keeps the file (and its time stamp) so that `make` does not rebuild the proofs."""
+Exits non-zero, naming the construct and line, when the source leaves the translator's grammar; Gen_CIR.v is then
+moved away (Gen_stale_CIR.v) so that nothing can be proved about an outdated translation.  An unchanged translation
+keeps the file and its time stamp (also across a failed run in between), so that `make` does not rebuild the proofs."""
 import os
 import subprocess
 import sys
@@ -10,14 +10,19 @@ import sys
 here = os.path.dirname(os.path.abspath(__file__))
 tr = os.path.join(here, "..", "..", "translator", "py2coq_cir.py")
 out = os.path.join(here, "Gen_CIR.v")
+stale = os.path.join(here, "Gen_stale_CIR.v")
 tmp = out + ".new"
 rc = subprocess.call([sys.executable, tr, "--repo", os.environ.get("EXO_REPO", "/repo"), "-o", tmp])
 if rc != 0:
-    for f in (out, tmp):
-        if os.path.exists(f):
-            os.remove(f)
+    if os.path.exists(tmp):
+        os.remove(tmp)
+    if os.path.exists(out):
+        os.replace(out, stale)
     sys.exit(rc)
-if os.path.exists(out) and open(out).read() == open(tmp).read():
+new = open(tmp).read()
+if not os.path.exists(out) and os.path.exists(stale) and open(stale).read() == new:
+    os.replace(stale, out)  # same translation as before the failure: keep its time stamp
+if os.path.exists(out) and open(out).read() == new:
     os.remove(tmp)
 else:
     os.replace(tmp, out)
